@@ -37,48 +37,57 @@ theorem eye_to_orthH {m : Nat} (U : Mat K m m) (hU : matMul (cT U) U = eye) : (t
   to_matrix at hU
   exact hU
 
-theorem gmd_sound {ι : ℝ →+* K} (hι : RealLike ι) (m n : Nat) (U : Mat K m m) (V : Mat K n n)
-    (S : Fin (min m n) → ℝ) (sb : ℝ)
-    (hp : 0 < min m n) (hU : matMul (cT U) U = eye) (hV : matMul (cT V) V = eye)
-    (hS : ∀ i, 0 < S i) (hmono : ∀ i j, i ≤ j → S j ≤ S i) (hsb : 0 < sb)
-    (hprod : sb ^ (min m n) = ∏ i, S i) :
-    ∃ Q R P mg, gmd m n (min m n) (ι sb) (colsOf U) (Array.ofFn (fun i => ι (S i))) (colsOf V)
+/-- GENERAL FORM (any tolerance): `p ≤ min m n` singular values in use (the first `p` positive and
+    non-increasing, `σ̄^p` their product).  The sweep returns `.ok (Q, R, P, _)` with
+    `Q R Pᴴ = U Σ_p Vᴴ` — the rank-`p` truncation of `U Σ Vᴴ`, the singular values beyond the
+    first `p` replaced by zero —, unitary `Q`, `P`, upper-triangular `R` with `σ̄` on the first `p`
+    diagonal entries. -/
+theorem gmd_sound_p {ι : ℝ →+* K} (hι : RealLike ι) (m n : Nat) (U : Mat K m m) (V : Mat K n n)
+    (S : Fin (min m n) → ℝ) (sb : ℝ) (p : Nat)
+    (hp : 0 < p) (hpmn : p ≤ min m n) (hU : matMul (cT U) U = eye) (hV : matMul (cT V) V = eye)
+    (hS : ∀ i : Fin (min m n), i.val < p → 0 < S i)
+    (hmono : ∀ i j : Fin (min m n), i ≤ j → j.val < p → S j ≤ S i) (hsb : 0 < sb)
+    (hprod : sb ^ p = ∏ r ∈ Finset.range p, Sx S r) :
+    ∃ Q R P mg, gmd m n p (ι sb) (colsOf U) (Array.ofFn (fun i => ι (S i))) (colsOf V)
         = .ok (Q, R, P, mg) ∧
       (let Qm : Mat K m m := fun i j => entryCols Q i.val j.val
        let Rm : Mat K m n := fun i j => entryRows R i.val j.val
        let Pm : Mat K n n := fun i j => entryCols P i.val j.val
-       matMul (matMul Qm Rm) (cT Pm) = matMul (matMul U (sigmaMat (fun i => ι (S i)))) (cT V) ∧
+       matMul (matMul Qm Rm) (cT Pm) = matMul (matMul U (sigmaMat (fun i => ι (truncS p S i)))) (cT V) ∧
        matMul (cT Qm) Qm = eye ∧ matMul (cT Pm) Pm = eye ∧
        (∀ i j, j.val < i.val → Rm i j = 0) ∧
-       (∀ i j, i.val = j.val → i.val < min m n → Rm i j = ι sb)) := by
+       (∀ i j, i.val = j.val → i.val < p → Rm i j = ι sb)) := by
   have hU' := eye_to_orthH U hU
   have hV' := eye_to_orthH V hV
-  have hpm : min m n ≤ m := Nat.min_le_left m n
-  have hpn : min m n ≤ n := Nat.min_le_right m n
+  have hpm : p ≤ m := le_trans hpmn (Nat.min_le_left m n)
+  have hpn : p ≤ n := le_trans hpmn (Nat.min_le_right m n)
   obtain ⟨R0, hR0, hR0s, hR0row, hR0z⟩ :=
-    initR_ok m n (min m n) (Array.ofFn (fun i => ι (S i))) hp hpm hpn (by simp)
-  have sh0 := init_shape m n (min m n) R0 U V (fun i => ι (S i)) hR0s hR0row
-  have inv0 := init_inv ι m n R0 U V S sb hp hU' hV' hS hprod hR0z
-  have Spos : ∀ r, r < min m n → 0 < Sx S r := by
-    intro r hr; unfold Sx; simp only [hr, dif_pos]; exact hS _
-  have Smono : ∀ r r', r ≤ r' → r' < min m n → Sx S r' ≤ Sx S r := by
+    initR_ok m n p (Array.ofFn (fun i => ι (S i))) hp hpm hpn (by simpa using hpmn)
+  have sh0 := init_shape m n p (min m n) R0 U V (fun i => ι (S i)) hpmn hR0s hR0row
+  have Spos : ∀ r, r < p → 0 < Sx S r := by
+    intro r hr
+    have hr' : r < min m n := by omega
+    unfold Sx; simp only [hr', dif_pos]; exact hS _ hr
+  have Smono : ∀ r r', r ≤ r' → r' < p → Sx S r' ≤ Sx S r := by
     intro r r' hrr hr'
-    have hr : r < min m n := by omega
-    unfold Sx; simp only [hr, hr', dif_pos]
-    exact hmono _ _ hrr
-  obtain ⟨st, hst, sh, inv⟩ := sweep_ok hι m n (min m n) _ (Sx S) sb _ sh0 inv0 hpm hpn hsb Spos Smono
-    (min m n - 1) (le_refl _)
-  obtain ⟨R', hfin, hR'⟩ := finish_ok m n (min m n) (ι sb) st sh hp hpm hpn
+    have h1 : r' < min m n := by omega
+    have h2 : r < min m n := by omega
+    unfold Sx; simp only [h1, h2, dif_pos]
+    exact hmono _ _ hrr hr'
+  have inv0 := init_inv ι m n p R0 U V S sb hp hpmn hU' hV' Spos hprod hR0z
+  obtain ⟨st, hst, sh, inv⟩ := sweep_ok hι m n p _ (Sx S) sb _ sh0 inv0 hpm hpn hsb Spos Smono
+    (p - 1) (le_refl _)
+  obtain ⟨R', hfin, hR'⟩ := finish_ok m n p (ι sb) st sh hp hpm hpn
   obtain ⟨f1, f2, f3⟩ := inv.final hp hpm hpn (entryRows R') hR'
   refine ⟨st.Q, R', st.P, st.margin, ?_, ?_⟩
-  · rw [gmd_eq m n (min m n) (ι sb) _ _ _ hp, hR0, ok_bind, hst, ok_bind, hfin]
+  · rw [gmd_eq m n p (ι sb) _ _ _ hp, hR0, ok_bind, hst, ok_bind, hfin]
   · have oQ : Orth (colv m (entryCols st.Q)) := inv.mi.oQ
     have oP : Orth (colv n (entryCols st.P)) := inv.mi.oP
     have ePP := orth_to_eye st.P oP
     refine ⟨?_, orth_to_eye st.Q oQ, ePP, ?_, ?_⟩
     · have ePP' := eye_to_orthH _ ePP
       have ePP'' := _root_.mul_eq_one_comm.mp ePP'
-      have key : (toM U * toM (sigmaMat (fun i => ι (S i))) * (toM V)ᴴ) *
+      have key : (toM U * toM (sigmaMat (fun i => ι (truncS p S i))) * (toM V)ᴴ) *
             toM (fun (i j : Fin n) => entryCols st.P i.val j.val)
           = toM (fun (i j : Fin m) => entryCols st.Q i.val j.val) *
             toM (fun (i : Fin m) (j : Fin n) => entryRows R' i.val j.val) := by
@@ -98,7 +107,59 @@ theorem gmd_sound {ι : ℝ →+* K} (hι : RealLike ι) (m n : Nat) (U : Mat K 
       rw [← hij]
       exact f3 i.val hi
 
+/-- all singular values in use (`tol = 0`, the default): `Q R Pᴴ = U Σ Vᴴ` -/
+theorem gmd_sound {ι : ℝ →+* K} (hι : RealLike ι) (m n : Nat) (U : Mat K m m) (V : Mat K n n)
+    (S : Fin (min m n) → ℝ) (sb : ℝ)
+    (hp : 0 < min m n) (hU : matMul (cT U) U = eye) (hV : matMul (cT V) V = eye)
+    (hS : ∀ i, 0 < S i) (hmono : ∀ i j, i ≤ j → S j ≤ S i) (hsb : 0 < sb)
+    (hprod : sb ^ (min m n) = ∏ i, S i) :
+    ∃ Q R P mg, gmd m n (min m n) (ι sb) (colsOf U) (Array.ofFn (fun i => ι (S i))) (colsOf V)
+        = .ok (Q, R, P, mg) ∧
+      (let Qm : Mat K m m := fun i j => entryCols Q i.val j.val
+       let Rm : Mat K m n := fun i j => entryRows R i.val j.val
+       let Pm : Mat K n n := fun i j => entryCols P i.val j.val
+       matMul (matMul Qm Rm) (cT Pm) = matMul (matMul U (sigmaMat (fun i => ι (S i)))) (cT V) ∧
+       matMul (cT Qm) Qm = eye ∧ matMul (cT Pm) Pm = eye ∧
+       (∀ i j, j.val < i.val → Rm i j = 0) ∧
+       (∀ i j, i.val = j.val → i.val < min m n → Rm i j = ι sb)) := by
+  have hprod' : sb ^ (min m n) = ∏ r ∈ Finset.range (min m n), Sx S r := by
+    rw [hprod, Finset.prod_range]
+    apply Finset.prod_congr rfl
+    intro i _
+    unfold Sx; simp [i.isLt]
+  have htr : truncS (min m n) S = S := by
+    funext i; unfold truncS; simp [i.isLt]
+  have := gmd_sound_p hι m n U V S sb (min m n) hp (le_refl _) hU hV (fun i _ => hS i)
+    (fun i j hij _ => hmono i j hij) hsb hprod'
+  rw [htr] at this
+  exact this
+
 end generic
+
+/-- `exp(mean(log S))^p = ∏ S` for positive `S` -/
+theorem exp_mean_log_pow (p : Nat) (S : Fin p → ℝ) (hp : 0 < p) (hS : ∀ i, 0 < S i) :
+    Real.exp ((∑ i, Real.log (S i)) / p) ^ p = ∏ i, S i := by
+  have hp' : (p : ℝ) ≠ 0 := Nat.cast_ne_zero.mpr hp.ne'
+  rw [← Real.exp_nat_mul, mul_div_cancel₀ _ hp', Real.exp_sum]
+  exact Finset.prod_congr rfl (fun i _ => Real.exp_log (hS i))
+
+/-- product of the first `p` singular values, written over all of them -/
+theorem prod_trunc {q : Nat} (S : Fin q → ℝ) (p : Nat) (hpq : p ≤ q) :
+    ∏ i : Fin q, (if i.val < p then S i else 1) = ∏ r ∈ Finset.range p, Sx S r := by
+  have e1 : ∏ i : Fin q, (if i.val < p then S i else 1)
+      = ∏ r ∈ Finset.range q, (if r < p then Sx S r else 1) := by
+    rw [Finset.prod_range]
+    apply Finset.prod_congr rfl
+    intro i _
+    unfold Sx; simp [i.isLt]
+  rw [e1]
+  symm
+  rw [← Finset.prod_subset (Finset.range_subset_range.mpr hpq)]
+  · apply Finset.prod_congr rfl
+    intro r hr
+    rw [if_pos (Finset.mem_range.mp hr)]
+  · intro r _ hr
+    rw [if_neg (fun h => hr (Finset.mem_range.mpr h))]
 
 /-- `ℝ` is `RealLike` through the identity -/
 theorem realLike_real : RealLike (RingHom.id ℝ) :=
